@@ -110,10 +110,28 @@ def run(prog):
         errs = []
         if it not in names or any(o in names for o in ({"inorder_dfs_iter", "bfs_iter"} - {it})):
             errs.append("enumerates %s, expected %s" % ([n for n in names if n.endswith("_iter")], it))
-        if "enumerate" not in names or not ins or not show(ins[0].args[2]).endswith(".0.0"):
-            errs.append("the label is not the enumeration index")
-        out.append(inst("BT", "%s:BT3:labelling" % fn.npath, VIOLATION if errs else OK, fn, None,
-                        "; ".join(errs) if errs else "label = position in %s" % it))
+        if ins:
+            if "enumerate" not in names or not show(ins[0].args[2]).endswith(".0.0"):
+                errs.append("the label is not the enumeration index")
+        else:
+            # combinator form: it.enumerate().map(|(idx, node)| (ptr, idx)).collect()
+            r = strip(fn.terms.ret)
+            pair = None
+            if mir.is_call(r, "collect") or mir.is_call(r, "from_iter"):
+                m = strip(r[2][0])
+                if mir.is_call(m, "map") and mir.is_call(strip(m[2][0]), "enumerate"):
+                    clo = strip(m[2][1])
+                    if isinstance(clo, tuple) and clo[0] == "agg" and clo[1] == "closure":
+                        cf = [g for g in prog.lib_fns if g.npath == clo[2]]
+                        cr = strip(cf[0].terms.ret) if len(cf) == 1 and cf[0].terms.ret is not None else None
+                        if isinstance(cr, tuple) and cr[0] == "agg" and cr[1] == "tuple" and len(cr[4]) == 2:
+                            pair = cr[4]
+            if pair is None:
+                errs.append("?neither an insert in a loop over enumerate() nor enumerate().map(..).collect()")
+            elif show(strip(pair[1])) != "arg2.0":
+                errs.append("the label is not the enumeration index")
+        out.append(inst("BT", "%s:BT3:labelling" % fn.npath, verdict_of(errs), fn, None,
+                        errtext(errs) if errs else "label = position in %s" % it))
     # BT4
     fn = find("build_euler_vec", "LeastCommonAncestor")
     seqc = ordered_calls(fn, lambda c: c.callee.name in ("build_euler_vec", "push") and
